@@ -9,6 +9,11 @@ FUNCS = ["LuaDocument::to_lsp_range", "LuaDocument::to_lsp_position", "LuaDocume
 def hdefs(tier, roles):
     hs = []
     shp = S.shapes(2, widths=(1, 2, 4)) if tier == "quick" else S.shapes(3, widths=(1, 2, 3, 4))
+    if tier == "quick" and "doc_ranges" in roles:
+        # the document layer only forwards to LineIndex (covered per shape by the property's own harnesses); what it
+        # adds is how two conversions are combined, which needs a multi-byte character to matter
+        shp = [s for s in shp if any(w > 1 for w in s)]
+    body = "doc_ranges_lite" if tier == "quick" else "doc_ranges"
     for s in shp:
         L, K, n, arr = S.byte_len(s), len(s), S.name(s), S.rust_array(s)
         uw = L + 3
@@ -17,7 +22,7 @@ def hdefs(tier, roles):
         if "doc_ranges" in roles:
             bb = dict(b, symbolic="class of every 1-byte char (LF | other), both range ends (char indices)")
             hs.append(HDef("doc_rng_" + n, "doc_ranges",
-                           "#[kani::proof] #[kani::unwind(%d)] pub fn doc_rng_%s() { doc_ranges::<%d, %d>(%s) }" % (uw, n, L, K, arr),
+                           "#[kani::proof] #[kani::unwind(%d)] pub fn doc_rng_%s() { %s::<%d, %d>(%s) }" % (uw, n, body, L, K, arr),
                            "LuaDocument::to_lsp_range on every char-boundary range: Some, start<=end, lines exist, characters are UTF-16 "
                            "lengths of the line prefixes and within the line, agrees with to_lsp_position, to_rowan_range inverts it",
                            bb, ctx, FUNCS))
